@@ -240,7 +240,7 @@ pub fn trace(args: &[String]) -> i32 {
 /// Push half of C16: a program run is a function of program, input values and limits - not of
 /// the order in which inputs were declared nor of the hash map instance holding them.
 pub fn push_trace(args: &[String]) -> i32 {
-    use crate::proj::{build_state_ordered, stacks_to_json};
+    use crate::proj::{build_state_ordered, build_state_ordered_decoy, stacks_to_json};
     use push::push_vm::State;
     use push::error::into_state::IntoState;
     let seed = arg_u64(args, "--seed", 0);
@@ -252,20 +252,55 @@ pub fn push_trace(args: &[String]) -> i32 {
         let mut rng = run_rng(seed, 0xC16B, run);
         let (sv, max, inputs, limit) = crate::vm::random_config(&mut rng, &pool);
         out.line(&json!({"ev": "reset", "run": run, "op": "push"}));
+        // the state built with the inputs declared in the first order: every other way of declaring
+        // the SAME bindings (another order, a name bound to something else first) builds an EQUAL state
+        let reference = build_state_ordered(&sv, &max, &inputs, limit, 0).ok();
         for rotation in 0..6 {
             let val = guarded(|| {
-                let st = build_state_ordered(&sv, &max, &inputs, limit, rotation).expect("state");
-                match st.run_to_completion() {
+                let st = build_state_ordered_decoy(&sv, &max, &inputs, limit, rotation, rotation % 2 == 1).expect("state");
+                let same_state = reference.as_ref().is_some_and(|r| *r == st);
+                let mut o = match st.run_to_completion() {
                     Ok(mut s) => json!({"status": "ok", "stacks": format!("{:?}", (s.stdout_string().ok(), stacks_to_json(&s).map(|v| v.to_string())))}),
                     Err(fe) => {
                         let mut s = fe.into_state();
                         json!({"status": "fatal", "stacks": format!("{:?}", (s.stdout_string().ok(), stacks_to_json(&s).map(|v| v.to_string())))})
                     }
-                }
+                };
+                o["built_state_equals_the_first"] = json!(same_state);
+                o
             })
             .unwrap_or_else(|m| json!({"status": "panic", "stacks": m}));
             out.line(&json!({"ev": "obs", "run": run, "op": "push", "phase": format!("declaration_order_{rotation}"),
                              "key": format!("push|run{run}"), "val": val}));
+        }
+    }
+    // a program that mentions a name NO input was declared under, while other inputs differ from it
+    // only in letter case: whatever happens (the documented panic) happens every time, on every
+    // freshly built state - it cannot depend on how a hash map happens to be ordered
+    for run in first..(first + runs).min(first + 12) {
+        let mut rng = run_rng(seed, 0xC16C, run);
+        let base = ["qq", "total", "in1"][rng.random_range(0..3)];
+        let mention: String = base.chars().enumerate().map(|(k, c)| if k == 0 { c.to_ascii_uppercase() } else { c }).collect();
+        out.line(&json!({"ev": "reset", "run": format!("unbound{run}"), "op": "push-unbound"}));
+        for fresh in 0..8 {
+            let val = guarded(|| {
+                let st = push::push_vm::push_state::PushState::builder()
+                    .with_max_stack_size(10)
+                    .with_program([push::push_vm::program::PushProgram::Instruction(push::instruction::PushInstruction::InputVar(
+                        push::instruction::variable_name::VariableName::from(mention.as_str())))])
+                    .expect("fits")
+                    .with_instruction_step_limit(10)
+                    .with_int_input(base, 301)
+                    .with_int_input(&base.to_ascii_uppercase(), 320)
+                    .build();
+                match st.run_to_completion() {
+                    Ok(s) => json!({"status": "ok", "stacks": format!("{:?}", stacks_to_json(&s).map(|v| v.to_string()))}),
+                    Err(fe) => json!({"status": "fatal", "stacks": format!("{:?}", stacks_to_json(&fe.into_state()).map(|v| v.to_string()))}),
+                }
+            })
+            .unwrap_or_else(|m| json!({"status": "panic", "stacks": m}));
+            out.line(&json!({"ev": "obs", "run": format!("unbound{run}"), "op": "push-unbound", "phase": format!("fresh_state_{fresh}"),
+                             "key": format!("push-unbound|{mention}|run{run}"), "val": val}));
         }
     }
     out.finish();
